@@ -615,3 +615,54 @@ Print Assumptions C10_src_level.
 Print Assumptions C10_src_eligible.
 Print Assumptions C10_src_enum_mapping.
 Print Assumptions C10_src_enum_order_same.
+
+(* ------------------------------------------------------------------ the trusted PATH, tied to the source
+   (Gen/TrustedSrc.v: the trusted branch of deserialize_structure_internal, _remap_input,
+   Structure.from_trusted_data; Ser/TrustedPathProofs.v).  [ext] / [mcall] are the functions / methods the path calls
+   that are translated elsewhere (get_flat_resolved_mapper: C07_src_flat_resolved_mapper) or are the model's oracles. *)
+From TP Require Import Ser.TrustedPathProofs.
+
+(* Structure.from_trusted_data(mapping): the fields present in the mapping, unchanged; every other key is dropped *)
+Theorem C10_src_from_trusted_data :
+  forall (other_obj : N -> bool -> pyval) (chain : list pyval) (e : tenv)
+         (ext : pystr -> list pyval -> res pyval) (mcall : pyval -> pystr -> list pyval -> res pyval)
+         (cn : pystr) (c : tclass) (m : list (pystr * pyval)),
+    find_tclass e cn = Some c ->
+    nodupb (map f_name (t_fields c)) = true ->
+    forallb (fun p => nocls (snd p)) m = true ->
+    src_from_trusted_data ext mcall (class_heap other_obj chain e) (ref cn) (PDict (kv_py m)) PNone (PDict []) =
+    Ok (from_trusted_map c m).
+Proof. exact src_from_trusted_eq. Qed.
+
+(* the trusted branch at a known simplicity level (how _remap_input re-enters it for nested structures) = trusted_cls *)
+Theorem C10_src_trusted_cls :
+  forall (other_obj : N -> bool -> pyval) (chain : list pyval) (e : tenv) (re_match : N -> pystr -> bool)
+         (sdeser : N -> pyval -> res pyval) (ext : pystr -> list pyval -> res pyval)
+         (mcall : pyval -> pystr -> list pyval -> res pyval) (name usm ku : pyval),
+    ext_ok e ext -> mcall_ok re_match sdeser mcall -> sdeser_ok sdeser -> path_wf other_obj e = true ->
+    forall fuel lv cn d,
+      val_wf d = true ->
+      trusted_cls re_match sdeser e fuel lv cn d <> Raise Unmodelled ->
+      src_deserialize_structure_internal fuel ext mcall (class_heap other_obj chain e) (ref cn) d name usm PNone ku
+        (PBool false) (PBool true) (level_val lv) = trusted_cls re_match sdeser e fuel lv cn d.
+Proof. exact src_trusted_cls_eq. Qed.
+
+(* deserialize_structure_internal(cls, d, direct_trusted_mapping=True) on an ELIGIBLE class: exactly the model's trusted
+   deserializer -- the same instance, the same exception class -- wherever the model predicts *)
+Theorem C10_src_trusted_path :
+  forall (other_obj : N -> bool -> pyval) (chain : list pyval) (e : tenv) (re_match : N -> pystr -> bool)
+         (sdeser : N -> pyval -> res pyval) (ext : pystr -> list pyval -> res pyval)
+         (mcall : pyval -> pystr -> list pyval -> res pyval) (name usm ku : pyval),
+    ext_ok e ext -> mcall_ok re_match sdeser mcall -> sdeser_ok sdeser -> path_wf other_obj e = true ->
+    forall (ostore : N -> pyval -> res pyval) (kum : bool) fuel cn d,
+      chain_ok chain = true ->
+      val_wf d = true ->
+      eligible e fuel cn = true ->
+      deser_trusted re_match sdeser ostore e fuel kum cn d <> Raise Unmodelled ->
+      src_deserialize_structure_internal fuel ext mcall (class_heap other_obj chain e) (ref cn) d name usm PNone ku
+        (PBool false) (PBool true) (PBool false) = deser_trusted re_match sdeser ostore e fuel kum cn d.
+Proof. exact src_trusted_path. Qed.
+
+Print Assumptions C10_src_from_trusted_data.
+Print Assumptions C10_src_trusted_cls.
+Print Assumptions C10_src_trusted_path.
